@@ -134,6 +134,53 @@ def main():
     if not okT:
         ck.fail("C18-lock", "add_transaction from 16 threads lost counts: %s" % to, {"call": "client.add_transaction from 16 threads", "observed": to})
     ck.assumptions.append("threading.Lock atomicity of add_transaction is trusted (tested with 16 threads); the model is atomic per handler")
+    # two clients in one framework: an order refused by the first client's transaction limit is submitted again through the second (no limit); from
+    # then on it is the second client's order: its cancel / replace is validated and counted there, and the blocked first client does not affect it
+    import simgen
+    P = simgen.TICKS_BP
+    fcs = []
+    for _ in range(30 if thorough else 10):
+        i0 = rng.randrange(6, 18)
+        t0 = 1_700_000_000_000
+        def rn(sel):
+            return {"id": sel, "status": "ACTIVE", "adj": 1000, "atb": [[P[i0 - 2], 5000]], "atl": [[P[i0 + 2], 5000]], "trd": []}
+        ups = [{"pt": t0 + 400 * k, "status": "OPEN", "version": 1, "runners": [rn(1), rn(2)]} for k in range(9)]
+        side = rng.choice(["BACK", "LAY"])
+        px = P[i0 + 1] if side == "BACK" else P[i0 - 1]          # rests
+        L = lambda: {"t": "L", "p": px, "s": 200, "pt": "LAPSE", "tif": None, "mf": None}
+        second = rng.choice(["cancel", "replace"])
+        script = [{"s": 0, "m": 0, "u": 0, "acts": [["place", 1, 1, side, L(), {"mv": None}]]},
+                  {"s": 0, "m": 0, "u": 1, "acts": [["place", 2, 2, side, L(), {"mv": None}]]},
+                  {"s": 0, "m": 0, "u": 2, "acts": [["place_again", "o2", {"client": 1}]]},
+                  {"s": 0, "m": 0, "u": 5, "acts": [["cancel", 2, None, {}]] if second == "cancel" else [["replace", 2, P[i0 + 2] if side == "BACK" else P[i0 - 2], {"mv": None}]]}]
+        fcs.append({"config": {"place_latency": 0.12, "cancel_latency": 0.17, "update_latency": 0.15, "replace_latency": 0.28, "isolation": True},
+                    "clients": [{"bpe": True, "full_match": False, "limit": 0, "min_val": False}, {"bpe": True, "full_match": False, "limit": None, "min_val": False}],
+                    "strategies": [{"name": "s0", "client": 0, "max_live": 10 ** 6, "max_trade": 10 ** 6}],
+                    "markets": [{"id": "1.100000001", "event": "20000001", "group": False, "type": "WIN", "bsp": False, "persist": True, "winners": 1, "updates": ups}],
+                    "script": script, "_second": second})
+    fouts = run_impl_parallel("simlib", [{"scenarios": [simgen.to_impl({k: v for k, v in x.items() if not k.startswith("_")}) for x in ch], "observe": "all"} for ch in chunked(fcs, 10)], timeout=1800)
+    fimpl = [r for o in fouts for r in o["out"]]
+    fbad = []
+    for i, (sc, io) in enumerate(zip(fcs, fimpl)):
+        if io.get("error"):
+            fbad.append((i, "the run aborted: %s" % str(io["error"])[:120])); continue
+        reqs = {(r[3], r[4]): r[5] for r in io["requests"]}
+        o2 = next((o for o in io["final"] if o["o"] == "o2"), None)
+        want_tx = [1, 2 if sc["_second"] == "replace" else 1]
+        why = None
+        if reqs.get(("place", "o1")) is not True or reqs.get(("place", "o2")) is not False or reqs.get(("place_again", "o2")) is not True:
+            why = "placements: o1 %s (accepted expected), o2 through the limited client %s (refused expected), o2 again through the second client %s (accepted expected)" % (reqs.get(("place", "o1")), reqs.get(("place", "o2")), reqs.get(("place_again", "o2")))
+        elif reqs.get((sc["_second"], "o2")) is not True:
+            why = "the %s of the order now held by the client WITHOUT a limit was refused: %s" % (sc["_second"], reqs.get((sc["_second"], "o2")))
+        elif o2 is None or o2.get("client") != 1:
+            why = "the order placed through the second client reports client %s" % (o2 and o2.get("client"))
+        elif [c[1] for c in io["tx"]] != want_tx:
+            why = "transaction totals per client %s, expected %s (one bet through each client%s)" % ([c[1] for c in io["tx"]], want_tx, ", plus the replacement bet through the second" if sc["_second"] == "replace" else "")
+        if why:
+            fbad.append((i, why))
+    ck.family("order_failed_over_to_a_second_client", len(fcs), len(fcs), [], sorted({i for i, _ in fbad}))
+    for i, why in fbad[:2]:
+        ck.fail("C18-clients-independent", "two clients, an order refused by the first client's limit and placed through the second: " + why, {"scenario": {k: v for k, v in fcs[i].items() if not k.startswith("_")}, "how": "harness/impl/simlib.py (place_again with client)"})
     return ck.finish("random histories of add_transaction / requests over 1-3 real clients (limits None/0/3/5/10/5000), times stepping over hour/day/year boundaries and backwards, simulated clock and patched live clock; model and the state-free property checker both evaluated in Coq on the implementation's observations; distinct = distinct client histories")
 
 
